@@ -130,6 +130,25 @@ def run(replay=None):
     if rc != 0:
         ck.obligation_broken("harness run c08 (exit %d)" % rc, out[-2000:])
         return ck.finish()
+    # interface-typed UNEXPORTED variables, in a process of their own (a corrupted interface value can fault on any read)
+    uobs = os.path.join(ck.wd, "obs_ue.jsonl")
+    urc, uout = vlib.run_hx(hx, ["c08", "-extra", "ue-iface", "-seed", str(ck.seed), "-out", uobs], timeout=300)
+    urows = vlib.read_jsonl(uobs) if os.path.exists(uobs) else []
+    ures = [r for r in urows if r.get("kind") == "ue-iface"]
+    ck.notes["unexported_interface_variables"] = [{k: r.get(k) for k in ("var", "want", "during", "after", "set_panic")} for r in ures]
+    if urc != 0:
+        about = [r for r in urows if r.get("kind") == "ue-iface-about"]
+        ck.impl_violation("unexported-interface-variable-crash", "the process dies (exit %d) after UnExportedVar(%s).Set(..) on an interface-typed variable" % (urc, about[-1]["var"] if about else "?"),
+                          {"about": about[-1] if about else None, "tail": uout[-500:]})
+    for r in ures:
+        if r.get("set_panic"):
+            continue    # refused up front: allowed (nothing was changed: checked through "after")
+        if r["during"] != r["want"]:
+            ck.impl_violation("unexported-interface-variable-not-set", "UnExportedVar(varzoo.%s).Set(%s): the variable's static type is an interface type; readers observe %s instead of %s" % (
+                r["var"], r["want"], ascii(r["during"])[:80], r["want"]), r)
+    for r in ures:
+        if r["after"] != r["orig"]:
+            ck.impl_violation("unexported-interface-variable-not-restored", "after Reset varzoo.%s holds %s instead of %s" % (r["var"], ascii(r["after"])[:80], r["orig"]), r)
     hs = [r for r in vlib.read_jsonl(obs) if r.get("kind") == "hist"]
     ck.coverage["evaluations"] = sum(len(h["ops"]) for h in hs)
     nontriv = set()
